@@ -30,9 +30,11 @@ def _body_lambda(rel, which, total, what):
         raise Undecided("extraction out of date: parallel_reduce at %s has %d arguments" % (what, len(args)))
     lam = args[2]
     m = re.match(r"\[&\]\s*\(\s*tbb::blocked_range<std::size_t> (\w+),\s*auto (\w+)\)\s*\{", lam)
-    if not m or m.group(2) != "running_min":
+    if not m:
         raise Undecided("extraction out of date: body lambda header at " + what)
     body = X.body_after(lam, r"\[&\]\s*\([^)]*\)\s*", "reduce body " + what)
+    if m.group(2) != "running_min":      # the accumulator parameter is local to the lambda (N2)
+        body = X.canon("auto %s;" % m.group(2) + body, [(r"^auto (\w+);", ["running_min"])], [])[len("auto running_min;"):]
     return body, m.group(1), args[0]
 
 
@@ -55,13 +57,14 @@ def _signed_body(site, rel, which, total, mode, bounded):
             (r"auto se = (?:signed_edges_as_vector|local_signed_edges_as_vector)\.at\(i\);", "size_t se = VEC[i];", 1, "container-api", "std::vector::at"),
             (r"auto se_v = boost::source\(se, g\);", "size_t se_v = SRC[se];", 1, "container-api", ""),
             (r"auto se_u = boost::target\(se, g\);", "size_t se_u = TGT[se];", 1, "container-api", ""),
-            (r"auto hidden_edges = hidden_edges_per_edge\.at\(se\);", "unsigned long hidden_edges = HPE[se];", 1, "container-api", "std::map::at -> table of masks"),
+            (r"(?:const )?auto hidden_edges = hidden_edges_per_edge\.at\(se\);", "unsigned long hidden_edges = HPE[se];", 1, "container-api", "std::map::at -> table of masks"),
             (r"auto res = bidirectional_signed_dijkstra\(g, weight_map, signed_edges, hidden_edges,\s*", "cycle_t res = search(hidden_edges, ", 1,
              "overload-resolution", "callee -> contract K9"),
             (r"GET0\(res\)\.find\(se\) == GET0\(res\)\.end\(\)", "(((GET0(res)) >> se) & 1UL) == 0", 1, "container-api", "set membership"),
             (r"boost::get\(weight_map, se\)", "WSE[se]", 1, "container-api", ""),
             (r"GET0\(res\)\.insert\(se\);", "GET0(res) |= (1UL << se);", 1, "container-api", "set insert"),
         ]
+    body = X.canon(body, [(r"auto (\w+) = bidirectional_signed_dijkstra\(", ["res"])], log)
     body = X.rewrite(body, TUPLE_RULES[:1] + rules[:2], log)
     body = X.rewrite(body, TUPLE_RULES[1:] + rules[2:], log)
     if mode == "all":
@@ -182,6 +185,7 @@ def _lookup_body(bounded):
     log = []
     rel = "include/parmcb/sptrees.hpp"
     body, R, rng = _body_lambda(rel, 0, 1, "sptrees lookup")
+    body = X.canon(body, [(r"auto (\w+) = candidate_cycle_builder\(", ["cc"])], log)
     body = X.rewrite(body, [
         (r"\b%s\.begin\(\)" % R, "vp_rb", 1, "container-api", ""),
         (r"\b%s\.end\(\)" % R, "vp_re", 1, "container-api", ""),
@@ -251,6 +255,7 @@ def _lookup_seq(bounded):
     if i < 0:
         raise Undecided("extraction out of date: declaration of min in the sequential lookup")
     region = fn_body[i:]
+    region = X.canon(region, [(r"std::tuple<std::set<Edge>, WeightType, bool> (\w+) = candidate_cycle_builder\(", ["cc"])], log)
     region = X.rewrite(region, [
         (r"std::tuple<std::set<Edge>, WeightType, bool> min;", "cycle_t min = { 0UL, 0, 0 };", 1, "type-binding", "value-initialised tuple"),
         (r"for \(CandidateCycle<Graph, WeightMap> c : cycles\)", "for (size_t c = 0; c < vp_nc; c++)", 1, "container-api", "range-for over the candidate list = positions"),
